@@ -90,14 +90,16 @@ class Indentation(afmformats.AFMForceDistance):
             fp = self.fit_properties
             # Reset fit properties
             fp.reset()
-            # Set preprocessing options
-            fp["preprocessing"] = preprocessing
-            fp["preprocessing_options"] = options
             # Reset rating
             self._rating = None
-            # Apply preprocessing
-            # (This will call `AFMData.reset_data` on self)
             try:
+                # Set preprocessing options
+                # (storing them may already fail, e.g. for option values
+                # that cannot be compared to the stored ones)
+                fp["preprocessing"] = preprocessing
+                fp["preprocessing_options"] = options
+                # Apply preprocessing
+                # (This will call `AFMData.reset_data` on self)
                 details = preproc.apply(apret=self,
                                         identifiers=preprocessing,
                                         options=options,
